@@ -65,7 +65,7 @@ def derive_previous(rng, cur):
     prev = json.loads(json.dumps(cur))
     ents = prev["entries"]
     for _ in range(rng.randint(1, 4)):
-        op = rng.choice(["drop", "change", "add", "drop_language", "add_language"])
+        op = rng.choice(["drop", "change", "add", "drop_language", "add_language", "port", "port", "swap_languages"])
         if op == "drop" and ents:
             ents.pop(rng.randrange(len(ents)))
         elif op == "change" and ents:
@@ -75,6 +75,16 @@ def derive_previous(rng, cur):
         elif op == "add":
             lang = rng.choice(LANGS)
             ents.append(G.entry_spec(rng, f"added/n{rng.randint(0, 999)}{G.LANG_EXT[lang]}", lang))
+        elif op == "port" and ents:
+            # a file ported to another language: every grand total stays the same, two languages change in opposite directions
+            e = rng.choice(ents)
+            other = rng.choice([l for l in LANGS if l != e["language"]])
+            e["language"] = other
+            e["path"] = e["path"].rsplit(".", 1)[0] + f"_ported{rng.randint(0, 99)}" + G.LANG_EXT[other]
+        elif op == "swap_languages" and len({e["language"] for e in ents}) >= 2:
+            a, b = rng.sample(sorted({e["language"] for e in ents}), 2)
+            for e in ents:
+                e["language"] = b if e["language"] == a else a if e["language"] == b else e["language"]
         elif op == "drop_language" and ents:
             lang = rng.choice(ents)["language"]
             ents[:] = [e for e in ents if e["language"] != lang]
@@ -200,6 +210,8 @@ def render_overviews(ctx, case, cur, prev):
             ctx.violation("formats_disagree", case, {"totals_text": tt, "totals_markdown": tm})
     if prev_t is not None and (cur_t != prev_t):
         ctx.distinct([cur_t, prev_t])
+        if grand(cur_t) == grand(prev_t):
+            ctx.count("cases.equal_totals_but_languages_differ")
 
 
 # ------------------------------------------------------------------------------------------------
